@@ -161,7 +161,43 @@ def t_non_point_key(world, head, pool, rng):
     return cstream.sign_each(world, cstream.unsigned_tx([r], [(led[r][0], world.keys[0][1])]), [None], rng)
 
 
+EVER_VALID = []          # valid transactions the node under test has verified earlier in this process (bounded)
+
+
+def t_forged_twin(world, head, pool, rng):
+    """a twin of a transaction whose signatures this process verified before (it was pooled once, or sits in a validated
+    block of another branch) and that would be valid at the head right now: same spent references, same outputs, but
+    other bytes where the signatures belong"""
+    led = world.ledger(head)
+    pool_refs = {r for x in pool for r in x.refs()}
+    cands = [t for b in world.chain.order[1:] for t in world.chain.blocks[b].txs[1:]] + EVER_VALID[-60:]
+    rng.shuffle(cands)
+    for t in cands[:80]:
+        if set(t.refs()) & pool_refs or any(r not in led for r in t.refs()):
+            continue
+        if ref.tx_codes_by_itself(t) | ref.tx_codes_in_ledger(t, led):
+            continue
+        mode = rng.choice(["random", "flip", "swap"])
+        ins = []
+        for n, (h, i, sg_) in enumerate(t.inputs):
+            if sg_[0] != ref.SIG_EC:
+                return None
+            sig = bytearray(sg_[1])
+            if mode == "random":
+                sig = bytearray(rng.getrandbits(8) for _ in range(len(sig)))
+            elif mode == "flip" or len(t.inputs) < 2:
+                sig[rng.randrange(len(sig))] ^= 1 << rng.randrange(8)
+            else:
+                sig = bytearray(t.inputs[(n + 1) % len(t.inputs)][2][1])      # the signature of the neighbouring input
+            ins.append((h, i, (ref.SIG_EC, bytes(sig))))
+        twin = ref.RTx(ins, list(t.outputs))
+        if ref.tx_codes_by_itself(twin) | ref.tx_codes_in_ledger(twin, led):
+            return twin
+    return None
+
+
 SUBMISSIONS = {
+    "forged-twin-of-verified": t_forged_twin,
     "valid": t_valid, "conflicting-with-pooled": t_conflicting, "duplicate-of-pooled": t_duplicate,
     "no-outputs": t_no_outputs, "no-inputs": t_no_inputs, "zero-value-output": t_zero_output,
     "reference-twice": t_dup_ref, "null-reference": t_null_ref, "placeholder-signature": t_placeholder_sig,
@@ -283,6 +319,8 @@ class Seq:
         admitted = ids_after == ids_before + [t.id()] and t.id() not in ids_before
         if admitted:
             c["admitted"] += 1
+            if ok_expected and len(EVER_VALID) < 5000:
+                EVER_VALID.append(t)
             if not ok_expected:
                 self.mon.v("invalid-or-conflicting-transaction-admitted:" + ("conflict" if conflict else "+".join(sorted(codes))),
                            "%s transaction admitted via %s (reference: %s, shares a reference with the pool: %s)" % (
